@@ -1848,7 +1848,10 @@ pub fn inject_runtime_fault(rng: &mut Rng, file: &mut GFile) -> Option<String> {
                 v.push(stmt(StmtKind::Edge(GExpr::var("fault_a"), GExpr::var("fault_0"))));
                 name = "undefined_edge_next_to_existing_edges";
             }
-            v.push(stmt(StmtKind::AttrEdge(GExpr::var("fault_a"), GExpr::var("fault_b"), vec![GAttr { name: "fault".into(), value: Some(GExpr::Int(2)) }])));
+            // under another attribute name than the neighbouring edge's half of the time: an
+            // implementation that lands on the neighbour then has no conflict to stumble over
+            let attr_name = if rng.chance(1, 2) { "fault" } else { "fault_other" };
+            v.push(stmt(StmtKind::AttrEdge(GExpr::var("fault_a"), GExpr::var("fault_b"), vec![GAttr { name: attr_name.into(), value: Some(GExpr::Int(2)) }])));
             (v, name)
         }
         5 => (
